@@ -9,6 +9,7 @@ import ImmuModel.Merkle.AHTree
 import ImmuModel.Merkle.HTree
 import ImmuModel.Merkle.Proofs.InclSound
 import ImmuModel.Merkle.Proofs.Roots
+import ImmuModel.Merkle.Proofs.HTreeProofs
 import ImmuModel.Merkle.MthLemmas
 
 namespace ImmuModel.Props.C08
@@ -92,6 +93,24 @@ theorem aht_rollback (mh : MH D) (xs ys : List Bytes) (t t' : AHT D) (m : Nat)
     (hr : AHT.resetSize t m = some t') :
     AHT.appendAll mh t' ys = AHT.appendAll mh AHT.empty (xs.take m ++ ys) :=
   aht_reset_append mh xs ys t t' m ht hm hr
+
+/-- **Entry-tree inclusion soundness (membership).** An accepted entry proof against the true
+entry-tree root proves that the digest is one of the transaction's entry digests, whatever
+leaf index / width / terms the untrusted proof carries — or exhibits an explicit collision. -/
+theorem htree_inclusion_sound (mh : MH D) (enc : D → Bytes) (henc : Function.Injective enc)
+    (pr : HProof D) (dg : D) (ds : List D) (hne : ds ≠ [])
+    (hv : hVerifyInclusion mh enc pr dg (mth mh (ds.map (fun d => mh.leafH (enc d)))) = true) :
+    dg ∈ ds ∨ Coll mh :=
+  hVerifyInclusion_sound mh enc henc pr dg ds hne hv
+
+/-- **Entry-tree completeness.** For every width and every leaf index the produced proof
+carries that index and width and verifies against the built root. -/
+theorem htree_inclusion_complete (mh : MH D) (enc : D → Bytes) (ds : List D) (i : Nat)
+    (hi : i < ds.length) :
+    ∃ pr, HTree.inclusionProof (HTree.build mh enc ds) i = some pr ∧
+      pr.leaf = i ∧ pr.width = ds.length ∧
+      hVerifyInclusion mh enc pr (ds[i]) (HTree.build mh enc ds).root = true :=
+  hInclusionProof_complete mh enc ds i hi
 
 /-! Non-vacuity: a free (collision-free) hash over a term algebra; the hypotheses of
 `inclusion_sound` are met by a genuine proof in a 3-leaf tree. -/
